@@ -445,7 +445,7 @@ theorem appendArray_loop1_ext (A : Arr) (va : Option Arr) (sz vs : Nat) (b bv : 
     obtain ⟨f, rfl⟩ : ∃ f, fuel = f + 1 := ⟨fuel - 1, by omega⟩
     have : i = e := by simpa using hik
     subst this
-    simp only [fillFrom, SeqArr.appendArray_loop1, plt_off]
+    simp only [fillFrom, SeqArr.appendArray_loop1, plt_off, pne_off]
     simp
     exact hb
   | cons x xs ih =>
@@ -456,7 +456,9 @@ theorem appendArray_loop1_ext (A : Arr) (va : Option Arr) (sz vs : Nat) (b bv : 
     have hx0 : readCell vcs j = some x := by
       have := hx 0 (by simp)
       simpa only [Nat.add_zero, List.getElem_cons_zero] using this
-    simp only [fillFrom, SeqArr.appendArray_loop1, plt_off, hlt, decide_true, if_true, rd_at M bv j vcs hv, hx0,
+    have hie : i ≠ e := by omega
+    simp only [fillFrom, SeqArr.appendArray_loop1, plt_off, pne_off, hlt, hie, ne_eq, not_false_eq_true, decide_true, if_true,
+      rd_at M bv j vcs hv, hx0,
       con_at M b i cs x hb]
     cases hc : construct cs i x with
     | none => simp
@@ -491,14 +493,16 @@ theorem appendArray_loop1_alias (A : Arr) (va : Option Arr) (sz vs : Nat) (b e :
     obtain ⟨f, rfl⟩ : ∃ f, fuel = f + 1 := ⟨fuel - 1, by omega⟩
     have : i = e := by omega
     subst this
-    simp only [selfCopyLoop, SeqArr.appendArray_loop1, plt_off]
+    simp only [selfCopyLoop, SeqArr.appendArray_loop1, plt_off, pne_off]
     simp
     exact hb
   | succ k ih =>
     intro i j fuel M cs hik hf hb
     obtain ⟨f, rfl⟩ : ∃ f, fuel = f + 1 := ⟨fuel - 1, by omega⟩
     have hlt : i < e := by omega
-    simp only [selfCopyLoop, SeqArr.appendArray_loop1, plt_off, hlt, decide_true, if_true, rd_at M b j cs hb]
+    have hie : i ≠ e := by omega
+    simp only [selfCopyLoop, SeqArr.appendArray_loop1, plt_off, pne_off, hlt, hie, ne_eq, not_false_eq_true, decide_true, if_true,
+      rd_at M b j cs hb]
     cases hr : readCell cs j with
     | none => simp
     | some v =>
